@@ -600,3 +600,21 @@ Lemma C05_seq_lemma :
   forall (pre post : list (list Z)) (x : list Z),
     nth (length pre) (run_seq (pre ++ x :: post)) [] = corr_C05_one x.
 Proof. intros. apply nth_map_app. Qed.
+
+(* ---- BaseRequest._raise over ANY errors_map: exact class, then the family base ---- *)
+Lemma C05_truncation_mapped_lemma :
+  forall (m : list (list N * (Z * list N))) (cs : list chunk) (last : chunk) (p : list N) (buf : nat)
+         (sc : list nat) (clraw : option (list N)) (te : list N) (cl code : Z),
+    te_chunked te = true -> content_length_raw clraw = Some cl ->
+    Forall chunk_ok cs -> last_ok last ->
+    strict_prefix p (flat_map enc_chunk cs ++ enc_line last) ->
+    (emap_get m cls_BodyParsingError = Some code
+     \/ (emap_get m cls_BodyParsingError = None /\ emap_get m cls_RequestError = Some code)) ->
+    exists s', wsgi_body m (stream_init p sc) buf None clraw te = WStatus code s'.
+Proof.
+  intros m cs last p buf sc clraw te cl code Hte Hcl Hcs Hl Hp Hmap.
+  destruct (C05_truncation_lemma cs last p buf sc Hcs Hl Hp) as (s' & Hs').
+  exists s'. unfold wsgi_body.
+  rewrite (C05_chunked_overrides_raw_cl_lemma _ buf None clraw te cl Hte Hcl), Hs'.
+  unfold raise_status. destruct Hmap as [H|[H1 H2]]; [now rewrite H | now rewrite H1, H2].
+Qed.
